@@ -781,6 +781,14 @@ func (s *server) MessageBytes(c *Case) ([]byte, error) {
 	var body []byte
 	switch c.MBody {
 	case "empty":
+	case "nested":
+		nd := s.cmd.API.Node()
+		b, err := NestedMessage(c.MType, c.MPath, c.MMode, nodeVals{id: nd.ID, scheme: nd.URI.Scheme, host: nd.URI.Host,
+			port: uint64(nd.URI.Port), state: nd.State, coord: nd.IsCoordinator}, s.cmd.API.State())
+		if err != nil {
+			return nil, err
+		}
+		body = b
 	case "onebyte":
 		body = []byte{0x08}
 	case "onebyte_ff":
